@@ -157,16 +157,43 @@ Definition short (n : bytes) : Prop :=
 Definition rprint (r : hr) : Prop :=
   hr_ok2 r /\ plain_text (pfx r) = true /\ named r /\
   (single r = false -> hi r - lo r < MAX_RANGE).
+(* no bracket group - a maximal run of ranges with one prefix, wherever in the list it starts - has more ranges than the parser
+   takes between one pair of brackets *)
+Definition groups_small (s : list hr) : Prop := forall k, (length (members (skipn k s)) <= N.to_nat MAX_RANGES)%nat.
 Definition printable (s : list hr) : Prop :=
-  Forall rprint s /\ Forall short (expand s) /\ (length s <= N.to_nat MAX_RANGES)%nat.
+  Forall rprint s /\ Forall short (expand s) /\ groups_small s.
+
+Lemma members_length_le : forall s, (length (members s) <= length s)%nat.
+Proof.
+  induction s as [|r rest IH]; [cbn; lia|]. rewrite members_cons. cbn [length].
+  destruct rest as [|r' rest']; [cbn [length]; lia|]. destruct (within_range r' r); [lia|cbn [length]; lia].
+Qed.
+
+(* in particular: any list of at most MAX_RANGES ranges *)
+Lemma groups_small_of_length s : (length s <= N.to_nat MAX_RANGES)%nat -> groups_small s.
+Proof.
+  intros H k. pose proof (members_length_le (skipn k s)) as L. rewrite skipn_length in L. lia.
+Qed.
+
+Lemma skipn_skipn' {A} : forall j k (l : list A), skipn k (skipn j l) = skipn (j + k) l.
+Proof.
+  induction j as [|j IH]; intros k l; [reflexivity|]. destruct l as [|a l']; [rewrite !skipn_nil; reflexivity|].
+  cbn [skipn plus]. apply IH.
+Qed.
 
 Lemma printable_split s : s = members s ++ snd (gtext s) -> printable s ->
   Forall rprint (members s) /\ Forall short (expand (members s)) /\ (length (members s) <= N.to_nat MAX_RANGES)%nat /\
   printable (snd (gtext s)).
 Proof.
-  intros E (P1 & P2 & P3). rewrite E in P1, P2, P3. apply Forall_app in P1 as [P1a P1b].
-  rewrite expand_app in P2. apply Forall_app in P2 as [P2a P2b]. rewrite app_length in P3.
-  repeat split; try assumption; lia.
+  intros E (P1 & P2 & P3). rewrite E in P1, P2. apply Forall_app in P1 as [P1a P1b].
+  rewrite expand_app in P2. apply Forall_app in P2 as [P2a P2b].
+  split; [exact P1a|]. split; [exact P2a|]. split; [exact (P3 O)|].
+  split; [exact P1b|]. split; [exact P2b|].
+  assert (Er : snd (gtext s) = skipn (length (members s)) s).
+  { transitivity (skipn (length (members s)) (members s ++ snd (gtext s))).
+    - rewrite skipn_app, skipn_all, Nat.sub_diag. reflexivity.
+    - f_equal. symmetry. exact E. }
+  intro k. rewrite Er, skipn_skipn'. apply P3.
 Qed.
 
 Lemma gtext_split s : s = members s ++ snd (gtext s).
@@ -334,7 +361,8 @@ Definition rprintb (r : hr) : bool :=
 Definition shortb (n : bytes) : bool :=
   (N.of_nat (length n) <? SUFFIX_HOST_SIZE - 1) && (N.of_nat (length n) <? CUR_TOK_SIZE - 1).
 Definition printableb (l : list hr) : bool :=
-  forallb rprintb l && forallb shortb (expand l) && (N.of_nat (length l) <=? MAX_RANGES).
+  forallb rprintb l && forallb shortb (expand l) &&
+  forallb (fun k => N.of_nat (length (members (skipn k l))) <=? MAX_RANGES) (seq 0 (S (length l))).
 
 Lemma rprintb_sound r : rprintb r = true -> rprint r.
 Proof.
@@ -361,5 +389,8 @@ Proof.
   split; [|split].
   - apply Forall_forall. intros r Hr. apply rprintb_sound. rewrite forallb_forall in A. apply A. exact Hr.
   - apply Forall_forall. intros n Hn. apply shortb_sound. rewrite forallb_forall in B. apply B. exact Hn.
-  - apply N.leb_le in C. unfold MAX_RANGES in *. lia.
+  - intro k. destruct (Nat.le_gt_cases k (length l)) as [Hk|Hk].
+    + rewrite forallb_forall in C. specialize (C k). rewrite in_seq in C. apply N.leb_le in C; [|lia].
+      unfold MAX_RANGES in *. lia.
+    + rewrite skipn_all2 by lia. cbn [members length]. lia.
 Qed.
